@@ -61,6 +61,34 @@ func run(c *Ctx) {
 		sc.Ops = append(pre, sc.Ops...)
 		scripts = append(scripts, sc)
 	}
+	// every H.265 IRAP type (BLA_W_LP .. CRA_NUT, selected by bits 8.. of Extra), key frames of two
+	// FU-fragmented slices sharing one timestamp, a stalled consumer over a small limit and a late
+	// joiner after each key frame: the key verdict of every fragment decides both the GOP replay and
+	// where dropping may begin and end
+	for t := 1; t <= 6; t++ {
+		for _, gop := range []bool{true, false} {
+			sc := ml.Script{Hevc: true, Gop: gop, MaxQ: 3 + c.Rng.Intn(4)}
+			x := t << 8
+			sc.Ops = append(sc.Ops, ml.Op{Code: 'P', Kind: ml.KVps}, ml.Op{Code: 'P', Kind: ml.KSps}, ml.Op{Code: 'P', Kind: ml.KPps}, ml.Op{Code: 'P', Kind: ml.KKey, Extra: x})
+			sc.Ops = append(sc.Ops, ml.Op{Code: 'J', Name: 0, Gop: true}, ml.Op{Code: 'J', Name: 1, Gop: true}, ml.Op{Code: 'T', Name: 0})
+			for g := 0; g < 4; g++ {
+				sc.Ops = append(sc.Ops, ml.Op{Code: 'P', Kind: ml.KFuKeyS, Extra: x | c.Rng.Intn(3)})
+				for m := 1 + c.Rng.Intn(2); m > 0; m-- {
+					sc.Ops = append(sc.Ops, ml.Op{Code: 'P', Kind: ml.KFuKeyM, Extra: x | c.Rng.Intn(3), SameTs: true})
+				}
+				sc.Ops = append(sc.Ops, ml.Op{Code: 'P', Kind: ml.KFuKeyS, Extra: x | c.Rng.Intn(3), SameTs: true})
+				sc.Ops = append(sc.Ops, ml.Op{Code: 'P', Kind: ml.KFuKeyM, Extra: x | c.Rng.Intn(3), SameTs: true})
+				sc.Ops = append(sc.Ops, ml.Op{Code: 'J', Name: 10 + g, Gop: true})
+				for m := 1 + c.Rng.Intn(3); m > 0; m-- {
+					sc.Ops = append(sc.Ops, ml.Op{Code: 'P', Kind: ml.KNonKey})
+				}
+				if g == 2 {
+					sc.Ops = append(sc.Ops, ml.Op{Code: 'R', Name: 0})
+				}
+			}
+			scripts = append(scripts, sc)
+		}
+	}
 	ml.RunScripts(c, "c04", scripts)
 	for _, hevc := range []bool{false, true} {
 		for _, mode := range []string{"panic", "block"} {
